@@ -82,6 +82,33 @@ def selftest_table():
     return "\n".join(rows)
 
 
+def benign_table():
+    try:
+        status = json.load(open("/verif/benign/status.json"))
+    except Exception:
+        status = {}
+    rows = ["| id | files | refactor (sub-agent's own heading) | reported when first evaluated | now (all 20 properties) |", "|---|---|---|---|---|"]
+    n = silent = 0
+    for d in sorted(glob.glob("/verif/benign/C*-b*"), key=lambda x: (x.split("/")[-1].split("-")[0], int(x.split("-b")[-1]))):
+        m = json.load(open(os.path.join(d, "meta.json")))
+        if not m["verification"]["confirmed"]:
+            continue
+        head = ""
+        np_ = os.path.join(d, "notes.md")
+        if os.path.exists(np_):
+            for l in open(np_):
+                if l.startswith("#"):
+                    head = l.lstrip("# ").strip()
+                    break
+        first = ", ".join(sorted(m.get("reported_by", {}))) or "-"
+        st = status.get(m["id"], {})
+        now = "silent" if st.get("state") == "ok" and not st.get("reports") else ("reported: " + ", ".join(sorted(st.get("reports", {}))) if st else "?")
+        n += 1
+        silent += now == "silent"
+        rows.append(f"| {m['id']} | {', '.join(os.path.basename(f) for f in m['files_changed'])} | {head[:100]} | {first} | {now} |")
+    return "\n".join(rows) + f"\n\n{silent} of {n} confirmed refactors leave all 20 checks silent.", n, silent
+
+
 known = json.load(open("/verif/known_findings.json"))
 fixed_rows = "\n".join(f"* `{x}`" for x in known["fixed"])
 kf_rows = "\n".join(f"* **{k['property']} {k['rule']}** at `{k['where']}` (construct `{k['construct']}`): {k['what']}" for k in known["findings"])
@@ -92,6 +119,6 @@ n_rules = sum(len(v) for v in core.RULES.values())
 TEXT = open("/verif/DESIGN.tmpl.md").read()
 TEXT = (TEXT.replace("@@PER_PROPERTY@@", per_prop).replace("@@FIXED@@", fixed_rows).replace("@@KNOWN@@", kf_rows)
         .replace("@@SEEDED@@", st).replace("@@NSEED@@", str(n_seed)).replace("@@NMISSED@@", str(n_missed))
-        .replace("@@SELFTEST@@", selftest_table()).replace("@@NRULES@@", str(n_rules)))
+        .replace("@@BENIGN@@", benign_table()[0]).replace("@@SELFTEST@@", selftest_table()).replace("@@NRULES@@", str(n_rules)))
 open("/verif/DESIGN.md", "w").write(TEXT)
 print("DESIGN.md written:", len(TEXT.splitlines()), "lines;", n_rules, "rules;", n_seed, "seeded changes")
